@@ -867,3 +867,52 @@ package sizes
 //@   pure
 
 //@ property C08: (*InOrderPathResolver).requestPathLocked (*InOrderPathResolver).RequestPath (*InOrderPathResolver).RecordName (*InOrderPathResolver).RecordTreeEntry (*InOrderPathResolver).RecordCommit (*InOrderPathResolver).RecordTag (*InOrderPathResolver).forgetPathLocked (*InOrderPathResolver).ForgetPath (NullPathResolver).RequestPath (NullPathResolver).ForgetPath (NullPathResolver).RecordName (NullPathResolver).RecordTreeEntry (NullPathResolver).RecordCommit (NullPathResolver).RecordTag NewPathResolver structural/resolver-encapsulation
+
+// ---------------------------------------------------------------- footnotes.go, output.go: remaining report plumbing (C19, C11)
+// The footnote block lists the footnotes in table order, the k-th one under
+// the number k ("numbered 1..k in order of first citation": the order is
+// CreateCitation's), each with exactly its text.
+//@ func (*Footnotes).String
+//@   pure
+//@   ghost nLine counts fmt.Fprintf
+//@   call 0 fmt.Sprintf as cit
+//@   call 0 fmt.Sprintf assert len(arg_1) == 1 && dyntype(arg_1[0], "int") && unbox(arg_1[0], "int") == rangeindex + 2
+//@   call 0 fmt.Fprintf assert len(arg_2) == 2 && dyntype(arg_2[0], "string") && keyof(unbox(arg_2[0], "string")) == keyof(cit) && dyntype(arg_2[1], "string") && keyof(unbox(arg_2[1], "string")) == keyof(f.footnotes[rangeindex + 1])
+//@   loop 0 invariant nLine == rangeindex + 1
+//@   loop 0 step nLine == prev(nLine) + 1
+//@   ensures len(f.footnotes) == 0 ==> len(result) == 0
+//@   ensures len(f.footnotes) > 0 ==> nLine == len(f.footnotes)
+
+// An item is what it was built from (JSON key = symbol; value, humaner, unit
+// and reference value are the arguments), and is collected under its symbol.
+//@ func newItem
+//@   pure
+//@   ensures result != nil && fresh(result) && same(result.symbol, symbol) && same(result.name, name) && same(result.description, description) && result.path == path && result.value == value && same(result.unit, unit) && same(result.scale, scale)
+//@ func (*item).CollectItems
+//@   modifies map(items)
+//@   ensures has(items, i.symbol) && items[i.symbol] == i
+//@   ensures forall k string :: keyof(k) != keyof(i.symbol) ==> has(items, k) == old(has(items, k)) && items[k] == old(items[k])
+//@ func (*section).CollectItems
+//@   modifies map(items)
+//@   ghost nCollect counts tableContents.CollectItems
+//@   loop 0 invariant nCollect == rangeindex + 1
+//@   ensures nCollect == len(s.contents)
+//@ func (*item).Indented
+//@   pure
+//@   ensures dyntype(result, "*sizes.indentedItem") && unbox(result, "*sizes.indentedItem").depth == depth && unbox(result, "*sizes.indentedItem").tableContents == box(i, "*sizes.item")
+//@ func newSection
+//@   pure
+//@   ensures result != nil && fresh(result) && same(result.name, name) && same(result.contents, contents)
+
+// Roots: an explicit ROOT is always walked and carries the id git resolved.
+//@ func NewExplicitRoot
+//@   pure
+//@   ensures same(result.name, name) && result.oid == oid
+//@ func (*Graph).RegisterName
+//@   modifies fieldmem(Path.seekerCount), fieldmem(Path.parent), fieldmem(Path.relativePath), mapsof(InOrderPathResolver)
+//@   call 0 RecordName assert same(arg_0, name) && arg_1 == oid
+
+//@ property C19: (*Footnotes).String (*item).CollectItems (*section).CollectItems
+//@ property C11: newItem (*item).CollectItems (*section).CollectItems (*item).Indented newSection
+//@ property C01: NewExplicitRoot
+//@ property C08: (*Graph).RegisterName
